@@ -543,6 +543,127 @@ def rule_r10(prog, res):
     res.share('R10', 'binary members are encoded over the joined chunks '
               '(C08-R5); the wrapper-key search uses the transitive subclass '
               'list (C16-R8)', 'C16', c16.rule_r8, prog, Result)
+    res.share('R10', 'binary members are encoded over the joined chunks '
+              '(C08-R5); the wrapper-key search uses the transitive subclass '
+              'list (C16-R8)', 'C08', c08.rule_r14, prog, Result)
+
+
+# ------------------------------------------------------------------ R11
+FORWARDING_CLASSES = (
+    'spyne.protocol.json:JsonDocument', 'spyne.protocol.json:JsonP',
+    'spyne.protocol.yaml:YamlDocument',
+    'spyne.protocol.msgpack:MessagePackDocument',
+    'spyne.protocol.msgpack:MessagePackRpc', 'spyne.protocol.http:HttpRpc',
+    'spyne.protocol.dictdoc.simple:SimpleDictDocument',
+    'spyne.protocol.dictdoc.hier:HierDictDocument',
+    'spyne.protocol.xml:XmlDocument', 'spyne.protocol.soap.soap11:Soap11',
+    'spyne.protocol.soap.soap12:Soap12')
+
+
+def _init_params(f):
+    a = f.node.args
+    return [x.arg for x in a.args] + [x.arg for x in a.kwonlyargs]
+
+
+def rule_r11(prog, res):
+    res.rule('R11', 'protocol constructors forward every option they share '
+             'with their parent constructor')
+    from ..core import ClassInfo
+    n = 0
+    for cfq in FORWARDING_CLASSES:
+        c = prog.cls(cfq, required=False)
+        if c is None:
+            continue
+        f = c.methods.get('__init__')
+        if f is None:
+            continue
+        sup = [x for x in calls_in(f.node) if call_name(x) == '__init__']
+        if not sup:
+            continue
+        parent = None
+        for k in prog.mro(c)[1:]:
+            if isinstance(k, ClassInfo) and '__init__' in k.methods:
+                parent = k
+                break
+        if parent is None:
+            continue
+        n += 1
+        pp = _init_params(parent.methods['__init__'])
+        cp = _init_params(f)
+        call = sup[0]
+        unbound = isinstance(call.func, ast.Attribute) and isinstance(
+            call.func.value, ast.Name) and call.func.value.id[:1].isupper()
+        off = 0 if unbound else 1
+        passed = {}
+        star = False
+        for i, a in enumerate(call.args):
+            if isinstance(a, ast.Starred):
+                star = True
+                continue
+            j = i + off
+            if j < len(pp):
+                passed[pp[j]] = a
+        for k_ in call.keywords:
+            if k_.arg:
+                passed[k_.arg] = k_.value
+            else:
+                star = True
+        where = '%s:%d' % (f.module.relpath, call.lineno)
+        shared = [p_ for p_ in cp if p_ in pp and p_ != 'self']
+        missing = [p_ for p_ in shared if p_ not in passed]
+        # **kwargs / *args forwarding covers the rest only when the child
+        # does not name the option itself
+        res.ob('R11', where, '%s.__init__ -> %s.__init__: %d shared options, '
+               '%d forwarded%s' % (c.name, parent.name, len(shared),
+                                   len(shared) - len(missing),
+                                   ' (+ star forwarding)' if star else ''),
+               'VIOLATED' if missing else 'ok')
+        for p_ in missing:
+            res.finding('R11', '%s.__init__|not-forwarded|%s' % (c.name, p_),
+                        where, '%s.__init__ accepts the option %s but does '
+                        'not pass it to %s.__init__, which falls back to its '
+                        'default: %s(%s=...) is silently ignored while the '
+                        'sibling protocols honour it' % (
+                            c.name, p_, parent.name, c.name, p_))
+    res.floor('R11', 'protocol constructors calling their parent', n, 6)
+
+
+# ------------------------------------------------------------------ R12
+def rule_r12(prog, res):
+    res.rule('R12', 'stream decoders are created per request (no decoder '
+             'state on the protocol instance)')
+    n = 0
+    for c in prog.all_classes():
+        if not c.module.name.startswith('spyne.protocol'):
+            continue
+        f = c.methods.get('create_in_document')
+        if f is None:
+            continue
+        n += 1
+        bad = []
+        for call in calls_in(f.node):
+            if isinstance(call.func, ast.Attribute) and call.func.attr in (
+                    'feed', 'unpack', 'send') and unparse(
+                    call.func.value).startswith('self.'):
+                bad.append(call)
+        for node in walk_no_defs(f.node):
+            if isinstance(node, ast.comprehension) and unparse(
+                    node.iter).startswith('self.') and 'unpacker' in unparse(
+                    node.iter).lower():
+                bad.append(node.iter)
+        res.ob('R12', f.where, '%s: %s' % (f.qualname, 'feeds a decoder kept '
+               'on the protocol instance' if bad else 'decoders are locals'),
+               'VIOLATED' if bad else 'ok')
+        for b in bad[:1]:
+            res.finding('R12', '%s|instance-decoder|%s' % (
+                f.qualname, unparse(b)[:30]),
+                '%s:%d' % (f.module.relpath, b.lineno),
+                '%s feeds request bytes into %s, a decoder that lives on the '
+                'protocol instance: bytes left over from a truncated or '
+                'over-long request are prepended to the next request, which '
+                'is then refused although it is well-formed' % (
+                    f.qualname, unparse(b)[:40]))
+    res.floor('R12', 'create_in_document implementations', n, 5)
 
 
 def run(prog, res, tier):
@@ -556,6 +677,8 @@ def run(prog, res, tier):
     res.run_rule(rule_r8, prog, res)
     res.run_rule(rule_r9, prog, res)
     res.run_rule(rule_r10, prog, res)
+    res.run_rule(rule_r11, prog, res)
+    res.run_rule(rule_r12, prog, res)
 
 
 _H = 'spyne/protocol/dictdoc/hier.py'
@@ -564,6 +687,23 @@ _J = 'spyne/protocol/json.py'
 _Y = 'spyne/protocol/yaml.py'
 
 MUTANTS = [
+    Mutant('yaml-drops-polymorphic', 'R11', 'fire', _Y,
+           in_func('YamlDocument.__init__',
+                   "ignore_uncap, ignore_wrappers, complex_as, ordered, "
+                   "polymorphic)",
+                   "ignore_uncap, ignore_wrappers, complex_as, ordered)"),
+           'polymorphic'),
+    Mutant('yaml-forwards-by-keyword', 'R11', 'benign', _Y,
+           in_func('YamlDocument.__init__',
+                   "ignore_uncap, ignore_wrappers, complex_as, ordered, "
+                   "polymorphic)",
+                   "ignore_uncap, ignore_wrappers, complex_as, ordered, "
+                   "polymorphic=polymorphic)"), None),
+    Mutant('msgpack-unpacker-on-instance', 'R12', 'fire', _M,
+           in_func('MessagePackDocument.create_in_document',
+                   "            unpacker = self.mw_unpacker(**self."
+                   "kwargs_unpacker)\n            unpacker.feed(",
+                   "            self.unpacker.feed("), 'instance-decoder'),
     Mutant('bigint-reader-str-only', 'R9', 'fire', _M,
            in_func('MessagePackDocument.integer_from_bytes',
                    "isinstance(value, (six.text_type, six.binary_type))",
